@@ -86,55 +86,73 @@ def gen_stmt_kind(rng, pool_ints, pool_arrs):
     return rng.choice([["fail"], ["raise", "ValueError"], ["switch", "p2"]])
 
 
+class BuilderFailure(Exception):
+    """the real CodeBuilder raised on a legal sequence of calls"""
+
+    def __init__(self, prog, exc):
+        super().__init__("%s: %s" % (type(exc).__name__, exc))
+        self.prog = prog
+        self.exc = exc
+
+
 def build_program(rng, nstmts, real=True):
     """Generates a builder program while driving the real CodeBuilder (the names returned by
-    fresh_var_name feed later statements).  Returns (bprog, builder)."""
+    fresh_var_name feed later statements).  Returns (bprog, builder).  Blocks are generated
+    recursively: if_ bodies may contain nested if_ blocks (closed with or without an else_), and
+    an else_ may follow any closed if_."""
     from dagrt.language import CodeBuilder
     cb = CodeBuilder("ph")
     prog = []
     pool_ints = list(INTS)
     pool_arrs = list(ARRS)
-    open_ctx = []          # stack of ("if"|"else", ctx)
-    can_else = False
-    n = 0
-    while n < nstmts:
-        c = rng.random()
-        if c < 0.12 and len(open_ctx) < 3:
-            g = lang.Gen(rng, pool_ints, pool_arrs, [], FUNCS)
-            cond = norm_expr(g.bool_expr(1)) if rng.random() < 0.7 else ["var", rng.choice(pool_ints)]
-            ctx = cb.if_(lang.to_pym(cond))
-            ctx.__enter__()
-            open_ctx.append(("if", ctx))
-            prog.append(["if", cond])
-            can_else = False
+    budget = [nstmts]
+
+    def cond():
+        g = lang.Gen(rng, pool_ints, pool_arrs, [], FUNCS)
+        return norm_expr(g.bool_expr(1)) if rng.random() < 0.7 else ["var", rng.choice(pool_ints)]
+
+    def stmt():
+        k = gen_stmt_kind(rng, pool_ints, pool_arrs)
+        k = lang.kind_from_real(lang.kind_to_real(k))
+        add_real(cb, k)
+        prog.append(["stmt", k])
+        budget[0] -= 1
+
+    def block(depth, min_stmts):
+        n = 0
+        while budget[0] > 0 and (n < min_stmts or rng.random() < 0.7):
+            c = rng.random()
+            if c < 0.22 and depth < 3 and budget[0] >= 2:
+                cnd = cond()
+                ctx = cb.if_(lang.to_pym(cnd))
+                ctx.__enter__()
+                prog.append(["if", cnd])
+                budget[0] -= 1
+                block(depth + 1, 1)
+                ctx.__exit__(None, None, None)
+                prog.append(["endif"])
+                if rng.random() < 0.5 and budget[0] > 0:
+                    try:
+                        ctx = cb.else_()
+                        ctx.__enter__()
+                    except Exception as ex:  # noqa: BLE001
+                        raise BuilderFailure(prog + [["else"]], ex) from ex
+                    prog.append(["else"])
+                    block(depth + 1, 1)
+                    ctx.__exit__(None, None, None)
+                    prog.append(["endelse"])
+            elif c < 0.3:
+                prefix = rng.choice(["tmp", "x", "<cond>", "tmp_0"])
+                name = cb.fresh_var_name(prefix)
+                prog.append(["fresh", prefix])
+                if not name.startswith("<cond>"):
+                    pool_ints.append(name)
+            else:
+                stmt()
             n += 1
-        elif c < 0.2 and open_ctx:
-            kind, ctx = open_ctx.pop()
-            ctx.__exit__(None, None, None)
-            prog.append(["endif"] if kind == "if" else ["endelse"])
-            can_else = kind == "if"
-        elif c < 0.27 and can_else and len(open_ctx) < 3:
-            ctx = cb.else_()
-            ctx.__enter__()
-            open_ctx.append(("else", ctx))
-            prog.append(["else"])
-            can_else = False
-        elif c < 0.33:
-            prefix = rng.choice(["tmp", "x", "<cond>", "tmp_0"])
-            name = cb.fresh_var_name(prefix)
-            prog.append(["fresh", prefix])
-            if not name.startswith("<cond>"):
-                pool_ints.append(name)
-        else:
-            k = gen_stmt_kind(rng, pool_ints, pool_arrs)
-            k = lang.kind_from_real(lang.kind_to_real(k))
-            add_real(cb, k)
-            prog.append(["stmt", k])
-            n += 1
-    while open_ctx:
-        kind, ctx = open_ctx.pop()
-        ctx.__exit__(None, None, None)
-        prog.append(["endif"] if kind == "if" else ["endelse"])
+    block(0, 1)
+    while budget[0] > 0:
+        block(0, 1)
     return prog, cb
 
 
@@ -374,7 +392,9 @@ def fresh_collision(prog, names):
     it = iter(names)
     for c in prog:
         if c[0] in ("fresh", "if"):
-            nm = next(it)
+            nm = next(it, None)
+            if nm is None:
+                return "<no name was requested for builder call %r>" % (c,)
             if nm in seen:
                 return nm
             seen.add(nm)
@@ -488,7 +508,14 @@ def main(tier):
         cases.append((prog, cb, names, store))
     for _ in range(nprog):
         n = rng.choice([2, 3, 4, 5, 6, 7, 9, 12])
-        prog, _cb = build_program(rng, n)
+        try:
+            prog, _cb = build_program(rng, n)
+        except BuilderFailure as bf:
+            rep.violation({"what": "the real CodeBuilder raises on a legal sequence of builder calls",
+                           "prog": bf.prog, "exception": str(bf), "oracle": {"kind": "builder_raises"}})
+            rep.coverage.update(evaluations=len(cases) + 1, distinct_nontrivial=0, rule="aborted: builder raises",
+                                samples=[bf.prog])
+            return rep.finish("proof")
         names, cb = fresh_names(prog)           # replay: also checks that the recorded program is self-contained
         cases.append((prog, cb, names, gen_store(rng)))
 
